@@ -1,11 +1,24 @@
 #!/bin/bash
-# replay.sh <replay file>: re-executes a recorded (minimised) trace in a fresh
-# process against /repo's current working tree. exit 1 = reproduced.
+# replay.sh <replay file>: re-executes a recorded (minimised) trace in a fresh process against
+# /repo's current working tree, built the same way the checks build it (instrumented when
+# possible; the race build for a race finding). exit 1 = reproduced, 0 = not reproduced.
 set -u
+F="$(realpath "$1")"
 cd "$(dirname "$0")/.." || exit 2
+VERIF="$(pwd)"; REPO="${REPO_DIR:-/repo}"
 export GOFLAGS=-mod=mod GOPROXY=off GOTOOLCHAIN=auto
 unset GOSUMDB
 SCRATCH="$(mktemp -d "${TMPDIR:-/tmp}/verif-replay-XXXXXX")" || exit 2
 trap 'rm -rf "$SCRATCH"' EXIT
-go build -tags verif -o "$SCRATCH/vsim" ./cmd/vsim || exit 2
-GODEBUG=clobberfree=1 "$SCRATCH/vsim" replay "$1"
+RACE=0; grep -q '"op": "race"' "$F" && RACE=1
+. scripts/build.sh "$SCRATCH" $RACE || exit 2
+if [ $RACE = 1 ]; then
+  GORACE="halt_on_error=1 exitcode=66" GODEBUG=clobberfree=1 "$RACEBIN" replay "$F"; rc=$?
+  [ $rc = 66 ] && { echo "REPRODUCED (data race reported)"; exit 1; }
+  exit $rc
+fi
+GODEBUG=clobberfree=1 "$BIN" replay "$F"
+rc=$?
+# a by-seed trace of a run that kills its process reproduces by dying again
+if [ $rc -ne 0 ] && [ $rc -ne 1 ]; then echo "REPRODUCED (the run kills its process, exit $rc)"; exit 1; fi
+exit $rc
